@@ -473,6 +473,7 @@ pub fn units(prop: &str, tier: Tier) -> Option<Vec<Unit>> {
                 v.push(class(&format!("kext-{n}"), &en::k_ext(), pick(3, 4)).cfg(c).probes(NOPROBE).alarm(alarm).unit());
                 v.push(class(&format!("k01-{n}"), &en::k01(), pick(3, 3)).cfg(c).probes(NOPROBE).alarm(alarm).unit());
                 if n == "rich" {
+                    v.push(Unit::Custom { name: "pull-budgets".into(), run: Box::new(move |cx| eng_inputs::run("pull-budgets", tier, cx)) });
                     v.push(Unit::Custom { name: "text-totality".into(), run: Box::new(move |cx| eng_text::run_totality("text-totality", if tier == Tier::Quick { 4 } else { 5 }, cx)) });
                 }
                 v.push(class(&format!("ktot-{n}"), &en::k_tot(), pick(5, 6)).alpha(&['a', 'b'], pick(3, 4)).cfg(c).probes(NOPROBE).alarm(alarm).unit());
